@@ -293,7 +293,6 @@ func stringBytes(s *Stream) ([]byte, error) {
 				cursor += runeErrBytesLen
 				s.length += runeErrBytesLen - 1 // one invalid byte replaced by the three bytes of U+FFFD
 				s.offset -= runeErrBytesLen - 1
-			s.offset -= runeErrBytesLen - 1
 				_, _, p = s.stat()
 			} else {
 				cursor += int64(size)
